@@ -73,7 +73,21 @@ func c23(c *hx.Ctx) {
 	c.Type = "c23_case"
 	c.Agree = "c23_agree"
 	c.Rule = "(a) sequential scripts against the real client behind a scripted relay, weighted towards re-opens (Opened n, Opened n'), Closed, stream failures and restarts of execute while Sends are pending, compared step by step with the model, incl. the fixed script of the repaired re-open-during-send defect; (b) real relay + 2 or 3 real clients: random reconnect histories (stream failures, detach/re-attach, back pressure, gated receivers, cancellations) followed by a stable suffix in which every pending Send must succeed and its message be received within 5 s (timing observation); (c) deterministic re-open-during-send histories on the real relay; non-trivial = script with a Send or a returned Recv"
-	runScripts(c, c.N, &profC23, fixedC23(), func(g *genState, desc map[string]any) {})
+	runScripts(c, c.N*2/3, &profC23, fixedC23(), true, func(g *genState, desc map[string]any) {})
+	// composition scripts with many stream failures and restarts; the fixed one is a
+	// reconnect of the receiver while a Send is pending, then a stable suffix
+	fixedW := [][][3]any{{
+		{"conn", 0, ""}, {"conn", 1, ""}, {"send", 0, "xy"}, {"fail", 1, ""}, {"conn", 1, ""}, {"recv", 1, ""},
+	}, {
+		{"conn", 0, ""}, {"conn", 1, ""}, {"send", 0, "xy"}, {"fail", 0, ""}, {"conn", 0, ""}, {"recv", 1, ""},
+	}}
+	runWorldScripts(c, c.N/3, 8, 1, fixedW, func(r *worldRunner, desc map[string]any) {
+		if idx, _ := desc["index"].(int); idx < len(fixedW) {
+			if done, ok, _ := r.sends[0][0].result(); !done || !ok {
+				c.Failf("c23-reconnect-during-send-stuck", desc, "the pending Send did not complete after the reconnect and the partner's Recv")
+			}
+		}
+	})
 	ids := newIdentities(c.Rng, 3)
 	for i := 0; i < 2; i++ {
 		what, steps := reopenDuringSend(ids, i == 1)
